@@ -367,6 +367,9 @@ func judge(c *core.Case, mc *muCase, d *driver, log []event) {
 	if kicks > 0 {
 		c.Count("kicks", kicks)
 	}
+	if n := strings.Count(mc.shape, "Y") + strings.Count(mc.shape, "y"); n > 0 {
+		c.Count("stories_error_then_cancel", n)
+	}
 	c.Count("sequences", 1)
 }
 
